@@ -1816,6 +1816,8 @@ pub fn gen_c04_liveness(rng: &mut Rng, _tier: Tier) -> Value {
         "fail_all_from": *rng.pick(&[0u64, 0, 1, 5, 31, 33, 50]),
         "report_res": "O",
         "flush_fail": [],
+        // 15 %: from its k-th call on, every flush of the stream fails (a request completes after the attempt)
+        "flush_fail_from": if rng.chance(0.15) { json!(rng.below(4)) } else { Value::Null },
         "producers": producers,
         "main_ops": [{"op":"sleep","ns": next_cost * (1 + rng.below(2 * f + 20))}, {"op":"stop_faults"}],
         "pre_end": [],
